@@ -528,6 +528,66 @@ pub fn run(ctx: &Ctx) -> i32 {
         &format!("{} hand-encoded packages: 6 file sets (1–3 header files incl. a %ghost file that is not archived, a symlink, an empty file; %ghost files whose path ends with the whole path of an archived file, as a chroot tree does) × every ordered selection of their entries as archive order × {{uncompressed, gzip}} × {{newc, newc with upper-case hexadecimal header fields, stripped entries with rpm's alignment bytes}}. Plus a source package as rpmbuild writes it (no directory names, entries named by the bare file name, names that start with one and two dots next to their dot-less twin) in every order of ≥ 3 of its 4 files. Oracle: files() yields the archived entries in archive order, each under the metadata of the file of that name (of that index for stripped entries), bytes identical", fc.len()),
         b,
     );
+    // the rpmbuild-made packages of the repository: files() against an independent decoding of header and payload
+    let s_assets = {
+        let mut acc = Acc::new();
+        for (k, rel) in crate::common_assets::ASSETS.iter().enumerate() {
+            acc.evals += 1;
+            let x = std::fs::read(ctx.asset(rel)).unwrap_or_else(|e| crate::ctx::machinery(&format!("{}: {}", rel, e)));
+            let case = || json!({"asset": rel});
+            let Some(want) = crate::c12::model(&x) else {
+                acc.count("independent decoding not possible (compressor not available to the harness; not judged)");
+                continue;
+            };
+            let Ok(Ok(p)) = parse_pkg(&x) else { crate::ctx::machinery(&format!("{} does not parse", rel)) };
+            let mut bad = |clause: &str, what: String| acc.viol(Violation::new("assets", what, case()).sig("clause", clause).rank(k as u64));
+            match catch(|| {
+                let mut out = vec![];
+                for f in p.files().map_err(|e| e.to_string())? {
+                    let f = f.map_err(|e| e.to_string())?;
+                    out.push(f);
+                    if out.len() > want.len() + 1000 {
+                        return Err("does not terminate".to_string());
+                    }
+                }
+                Ok(out)
+            }) {
+                Err(pn) => bad("no-panic", format!("files() panics at {}", pn.at)),
+                Ok(Err(e)) => bad("iteration-fails", format!("iterating the payload of an rpmbuild-made package fails: {}", e)),
+                Ok(Ok(got)) => {
+                    if got.len() != want.len() {
+                        bad("sequence", format!("the archive holds {} entries, files() yields {}", want.len(), got.len()));
+                    }
+                    for (g, (wpath, wmode, wdata, _)) in got.iter().zip(want.iter()) {
+                        let gp = g.metadata.path.to_string_lossy().to_string();
+                        if gp != *wpath || g.metadata.mode.raw_mode() != *wmode {
+                            bad("pairing", format!("archive entry {:?} (mode {:o}) is yielded as {:?} (mode {:o})", wpath, wmode, gp, g.metadata.mode.raw_mode()));
+                        }
+                        if g.content != *wdata {
+                            bad("content", format!("{}: {} bytes yielded, {} archived, or different bytes", wpath, g.content.len(), wdata.len()));
+                        }
+                        if wmode & 0o170000 == 0o100000 {
+                            if g.metadata.size != wdata.len() {
+                                bad("size", format!("{}: recorded size {} but {} bytes archived", wpath, g.metadata.size, wdata.len()));
+                            }
+                            if let Some(d) = &g.metadata.digest {
+                                use sha2::Digest;
+                                let hx = d.as_hex().to_ascii_lowercase();
+                                let ok = hx == hex::encode(sha2::Sha256::digest(wdata)) || hx == hex::encode(crate::oracles::md5_raw(&[wdata])) || hx == hex::encode(sha1::Sha1::digest(wdata)) || hx == hex::encode(sha2::Sha512::digest(wdata));
+                                if !ok && !wdata.is_empty() {
+                                    bad("digest", format!("{}: the recorded digest {} is no digest of the archived bytes", wpath, hx));
+                                }
+                            }
+                        }
+                    }
+                    acc.nontrivial += 1;
+                    acc.count(&format!("{} entries compared", want.len().min(99)));
+                    acc.sample(k as u64, || json!({"asset": rel, "entries": want.len()}));
+                }
+            }
+        }
+        SubReport::new("assets", "A", "the six rpmbuild-made packages of the repository (binary and source packages, gzip / xz / zstd payloads, one with IMA signatures): files() yields exactly the archive's entries in archive order — path, mode, bytes — as an independent decoding of header and payload gives them, the recorded size is the number of bytes and the recorded digest a digest of them", acc)
+    };
     // payloads around the sizes at which compressors change their behaviour (window sizes, block sizes): one at a time,
     // they are big
     let s3 = {
@@ -573,7 +633,7 @@ pub fn run(ctx: &Ctx) -> i32 {
     }
     ctx.finish(
         "exploration",
-        vec![s1, s2, s3],
+        vec![s1, s2, s_assets, s3],
         &[
             "the stripped (large-file) layout is reached below 4 GiB through the verif-hooks feature; with > 4 GiB of real content it is not exercised",
             "between 64 KiB (quick) / 5 MiB (thorough) and the big-payloads sizes only the listed sizes are covered",
